@@ -465,6 +465,62 @@ func TestC14(t *testing.T) {
 				}
 			}
 		}
+		// a request whose context is cancelled BEFORE it is issued, while an identical request is in flight: it
+		// must fail with the cancellation (it may not be answered from, or wait for, the other request)
+		for i := 0; i < 3; i++ {
+			n++
+			if n%nshards != shard || deadlinePassed(deadline) {
+				continue
+			}
+			a := reqs[i]
+			var outA, outB string
+			reported := false
+			ex := &vsched.Explore{Bound: bound, Deadline: deadline}
+			ex.Run(func(vc vsched.Config) *vsched.Execution {
+				w.Store.Reset(rows)
+				w.Store.Visible = true
+				return vsched.Run(vc, func() {
+					var wg vsched.WaitGroup
+					wg.Add(2)
+					ctxA, cancelA := vsched.WithCancel(context.Background())
+					vsched.Go("request:"+a.name, func() {
+						defer wg.Done()
+						outA = a.run(ctxA)
+						cancelA()
+					})
+					ctxB, cancelB := vsched.WithCancel(context.Background())
+					cancelB()
+					vsched.Go("request (context already cancelled):"+a.name, func() {
+						defer wg.Done()
+						outB = a.run(ctxB)
+					})
+					wg.Wait()
+				})
+			}, func(x *vsched.Execution) bool {
+				if reported || x.Outcome == "diverged" {
+					return true
+				}
+				rep := map[string]any{"config": cfg.Name, "opl": refsem.RenderOPL(cfg.NS), "tuples_in_row_order": tuplesStr(ts), "requests": []string{a.name, a.name + " (context cancelled before the call)"}, "choices": x.Choices}
+				switch {
+				case x.Outcome != "ok" || len(x.Leaked) > 0:
+					reported = true
+					run.Violation("abnormal-with-cancel:"+x.Outcome, fmt.Sprintf("request %q and its twin with an already cancelled context: execution %s, leaked %v", a.name, x.Outcome, x.Leaked), rep)
+				case !strings.Contains(outB, "err"):
+					reported = true
+					run.Violation("cancelled-request-answered-from-another-request:"+strings.Fields(a.name)[0], fmt.Sprintf("request %q was issued with an already cancelled context while an identical request was in flight; it answered %q (no error); the other answered %q (config %s)", a.name, outB, outA, cfg.Name), rep)
+				case aloneOK[i] && !alone[i][outA]:
+					reported = true
+					run.Violation("interference-after-cancel:"+strings.Fields(a.name)[0], fmt.Sprintf("request %q answered %q while its cancelled twin ran; alone it answers %v (config %s)", a.name, outA, alone[i], cfg.Name), rep)
+				}
+				return true
+			})
+			cov.execs += ex.Execs
+			cov.trans += ex.Transitions
+			cov.cancelPairs++
+			if !ex.Complete {
+				cov.complete = false
+			}
+		}
 		// serving requests must not modify the shared namespace configuration
 		if after := relJSON(w.Cfg.Namespaces); after != astBefore {
 			run.Violation("shared-config-mutated-by-requests", fmt.Sprintf("the namespace AST served to all requests changed while requests ran (config %s): before %s after %s", cfg.Name, astBefore, after), map[string]any{"config": cfg.Name})
